@@ -2,7 +2,8 @@
    Constant pacer: proved in full (exact integer arithmetic).  Linear and sine pacers: see
    the partial statements at the end and DESIGN.md. *)
 From Coq Require Import ZArith List Bool Lia.
-From V Require Import Model.Pacer Proofs.PacerProofs.
+From V Require Import Model.Pacer Proofs.PacerProofs Model.LinearPacer Proofs.LinearProofs.
+From Coq Require Import Qround.
 Import ListNotations.
 Open Scope Z_scope.
 
@@ -77,6 +78,66 @@ Qed.
 Theorem const_overflow_wraps_refuted : exists F P t k w,
   const_dom F P t k /\ const_pace_pinned F P t k = Wait w /\ w < 0 /\ F * t < (k + 1) * P.
 Proof. exact const_pinned_wraps. Qed.
+
+(* ---- linear pacer (exact rationals; float rounding is in the guard band of the tie) -------- *)
+Section Linear.
+Import QArith.
+Local Open Scope Q_scope.
+
+(* the same closed-loop theorem with the domain required only where the pacer is called *)
+Theorem closed_loop_upper_calls :
+  forall (pace : Z -> Z -> outcome) (Adm Dom : Z -> Z -> Prop),
+  (forall t t' c, Adm t c -> (t <= t')%Z -> Adm t' c) ->
+  (forall t k w, Dom t k -> Adm t k -> pace t k = Wait w -> Adm (t + Z.max w 0)%Z (k + 1)%Z) ->
+  forall stalls st, Adm (fst st) (snd st) -> dom_along pace Dom st stalls ->
+  Forall (fun st' => Adm (fst st') (snd st')) (loop_run pace st stalls).
+Proof. intros pace Adm Dom Hm Hc stalls st. exact (loop_run_adm_calls pace Adm Dom Hm Hc stalls st). Qed.
+Print Assumptions closed_loop_upper_calls.
+
+(* the schedule a x^2/2 + b x never decreases for a non-negative slope *)
+Theorem linear_schedule_mono : forall F P a t t', 0 <= a -> (0 < F)%Z -> (0 < P)%Z -> (t <= t')%Z ->
+  lin_H a (lin_b F P) t <= lin_H a (lin_b F P) t'.
+Proof. exact lin_H_mono_all. Qed.
+
+(* per-call contract, non-negative slope: after the wait the schedule has reached the new count,
+   short of the rounding of the interval and the truncation of the wait *)
+Theorem linear_contract_pos : forall F P a t k w, 0 <= a -> (0 < F)%Z -> (0 < P)%Z -> (0 <= t)%Z -> (k <> 0)%Z ->
+  lin_pace F P a t k = LWait w ->
+  let b := lin_b F P in let e := lin_H a b t in let r := lin_rate a b t in let d := inject_Z (k + 1) - e in
+  (0 <= w)%Z /\
+  (((k < Qfloor e)%Z /\ w = 0%Z) \/
+   ((Qfloor e <= k)%Z /\ inject_Z (k + 1) - r * (d / 2 + 1) / e9 <= lin_H a b (t + w))).
+Proof. exact lin_contract_pos_lemma. Qed.
+Print Assumptions linear_contract_pos.
+
+(* closed loop, every stall history, every length: with a non-negative slope the count never
+   exceeds the schedule by more than one hit, as long as the pacer is called at rates of at most
+   5*10^8 hits/s (an interval of at least 2 ns) *)
+Theorem linear_closed_loop_upper : forall F P a stalls, 0 <= a -> (0 < F)%Z -> (0 < P)%Z ->
+  dom_along (lin_pace_o F P a) (lin_dom F P a) (0, 0)%Z stalls ->
+  Forall (fun st => lin_adm F P a (fst st) (snd st)) (loop_run (lin_pace_o F P a) (0, 0)%Z stalls).
+Proof. exact lin_closed_loop_lemma. Qed.
+Print Assumptions linear_closed_loop_upper.
+
+Theorem linear_positive_wait : forall F P a t k w, (0 < F)%Z -> (0 < P)%Z ->
+  lin_pace F P a t k = LWait w -> (0 < w)%Z -> (Qfloor (lin_H a (lin_b F P) t) <= k)%Z.
+Proof. exact lin_positive_wait_lemma. Qed.
+Theorem linear_neg_stops : forall F P a t k, (P <> 0)%Z -> (F <> 0)%Z -> (P < 0 \/ F < 0)%Z -> lin_pace F P a t k = LStop.
+Proof. exact lin_neg_stops_lemma. Qed.
+Theorem linear_zero_unlimited : forall F P a t k, (P = 0 \/ F = 0)%Z -> lin_pace F P a t k = LWait 0.
+Proof. exact lin_zero_unlimited_lemma. Qed.
+
+(* for a negative slope the statement is false on the faithful model: known finding
+   C01-linear-negslope *)
+Theorem linear_neg_refuted : exists F P a t k w,
+  (0 < F)%Z /\ (0 < P)%Z /\ lin_pace F P a t k = LWait w /\ lin_adm F P a t k /\ ~ lin_adm F P a (t + Z.max w 0)%Z (k + 1)%Z.
+Proof. exact lin_neg_refuted_lemma. Qed.
+Print Assumptions linear_neg_refuted.
+
+Example linear_example :
+  lin_pace 100 1000000000 (10 # 1) 1000000000 105 = LWait 9090909 /\ lin_adm 100 1000000000 (10 # 1) 1000000000 105.
+Proof. split; [vm_compute; reflexivity | vm_compute; discriminate]. Qed.
+End Linear.
 
 Example const_example :
   const_pace 3 10 297 99 = Wait 37 /\ const_pace 2000000000 1000000000 0 0 = Wait 1 /\
